@@ -10,7 +10,8 @@ EXTENDS SrcSyntax, Json
 CONSTANTS Family,     \* "ctl" | "ctlx" | "eff" | "scope" | "yf" | "panic"
           MaxSize, TapeLen, MaxCalls, Budget,
           OpenFlags,  \* set of as-built flags that are open known findings
-          Lazy        \* compose the last size level lazily inside Init
+          Lazy,       \* compose the last size level lazily inside Init
+          TapeRep     \* 0: every tape up to TapeLen; r > 0: every non-empty pattern up to TapeLen repeated r times (C17)
 
 Lit0 == [k |-> "lit", v |-> 0]
 VarA == [k |-> "var", n |-> "a"]
@@ -65,6 +66,8 @@ D3 == <<[k |-> "if", init |-> None, c |-> [k |-> "t", id |-> 92], a |-> <<Y([k |
 D4 == <<[k |-> "if", init |-> None, c |-> [k |-> "t", id |-> 93],
          a |-> <<YF(4, [k |-> "add", n |-> "a", d |-> 1]), Y(VarA), YF(4, [k |-> "add", n |-> "a", d |-> 1])>>, b |-> <<>>]>>
 
+RECURSIVE RepTape(_, _)
+RepTape(p, n) == IF n = 0 THEN <<>> ELSE p \o RepTape(p, n - 1)
 Tab == BuildTab(A, <<>>, IF Lazy THEN MaxSize - 1 ELSE MaxSize)
 Small == UNION {Tab[m + 1].B["top"] : m \in 0..(IF Lazy THEN MaxSize - 1 ELSE MaxSize)}
 
@@ -78,7 +81,7 @@ Init == /\ \/ \E raw \in Small : prog = Label(raw)
                        \/ \E m \in 1..(MaxSize - 1) : \E s \in Tab[m + 1].S["top"], r \in B(MaxSize - m, "top") : prog = Label(<<s>> \o r)
                        \/ \E s \in Composite(A, MaxSize, "top", B) : prog = Label(<<s>>))
         /\ Member(prog)
-        /\ tape0 \in Tapes(TapeLen)
+        /\ tape0 \in (IF TapeRep = 0 THEN Tapes(TapeLen) ELSE {RepTape(p, TapeRep) : p \in Tapes(TapeLen) \ {<<>>}})
         /\ w = Start(prog, tape0, {})
         /\ wb = Start(prog, tape0, OpenFlags)
         /\ calls = 0 /\ obs = <<>> /\ obsB = <<>>
